@@ -2,6 +2,7 @@ package main
 
 import (
 	"fmt"
+	"os"
 
 	"github.com/sarchlab/mgpusim/v4/amd/driver"
 	"github.com/sarchlab/mgpusim/v4/amd/kernels"
@@ -65,6 +66,9 @@ func l3Cases(c *vlib.Check) []any {
 		out = append(out, d)
 	}
 	n := c.N(200, 5000)
+	if os.Getenv("C08_ONLY_CANONICAL") != "" {
+		n = 0
+	}
 	base := c.Rand("l3")
 	for i := 0; i < n; i++ {
 		out = append(out, genDrvCase(base.ForkN("d", i), i, c.N(200, 1000), c.N(20000, 100000)))
@@ -198,4 +202,3 @@ func runL3(rec vlib.Recorder, d *drvCase) {
 		rec.Nontrivial(fmt.Sprintf("L3/%v/%v/%v/%v", d.Grid, d.WG, d.CUs, d.Members))
 	}
 }
-
